@@ -113,6 +113,9 @@ def monitor(script):
     relearn = False
     accepted_at_save = {0}
     accepted_ever = {0}
+    ever_marked = set()
+    prune_floor = -10**9
+    loaded_once = False
     errored = {}                  # id -> internal-error verdict of its submission (C01, third sentence)
     blocks = {}            # header id -> number of transactions of the block it commits to
     deep_marks = set()     # marks of headers at/below the in-memory window: known to be ineffective
@@ -372,6 +375,18 @@ def monitor(script):
                 errored[i] = v
             elif v == "ok":
                 errored.pop(i, None)
+            # C11 / C08: a header whose parent the repository reports as known, within the fork-depth limit and
+            # the retained depth, is never answered "unknown" (after a Load: the side branch was not restored)
+            if v == "unknown" and i in defs and not relearn and not latest_mode:
+                p = defs[i][0]
+                hp = height(p)
+                lim = min(maxdepth, min_depth - 1)
+                if (p in accepted and p not in dropped and hp is not None and before["work"] is not None
+                        and before["h"] - hp <= lim and hp >= prune_floor and last_dump is not None and last_dump.hh.get(p, -1) == hp
+                        and not any(x == p or is_anc(x, p) for x in ever_marked if height(x) is not None)):
+                    pid = "C11:attach-lost-after-load" if loaded_once else "C08:held-parent-unknown"
+                    m.hit(pid, f"submission of {i} answered `unknown` although its parent {p} (height {hp}, tip height {before['h']}) is reported as held" +
+                          (" after Load: the branch holding it was not restored" if loaded_once else ""))
             # C08 reference verdict
             if i in defs and v is not None:
                 p = defs[i][0]
@@ -386,6 +401,14 @@ def monitor(script):
                     m.hit("C08:verdict-internal-error", f"submission of {i} answered with an internal error `{v}`, not one of the reference verdicts")
         if verb in ("cleand", "loadd", "crashclean") and "d" in a:
             min_depth = min(min_depth, int(a["d"]))
+        # heights at or above this floor were never eligible for pruning from memory
+        if verb in ("clean", "cleand", "load", "loadd", "crashclean", "crashsave"):
+            dd = int(a["d"]) if "d" in a else 10000
+            if "ld" in a:
+                dd = min(dd, int(a["ld"]))
+            hs = [x for x in (tip.get("h"), int(o["h"]) if "h" in o else None) if x is not None]
+            if hs:
+                prune_floor = max(prune_floor, max(hs) - dd)
         if verb in ("loadd", "crashsave", "crashclean") and "ld" in a:
             min_depth = min(min_depth, int(a["ld"]))
         if verb in ("clean", "cleand", "save"):
@@ -419,6 +442,7 @@ def monitor(script):
                 accepted_before_load = set(accepted)
                 accepted = set(accepted_at_save)
                 relearn = True
+                loaded_once = True
         elif verb in ("crashsave", "crashclean"):
             if o.get("r", "ok") != "ok":
                 m.hit("C12:op-error", f"`{op}` failed: {oraw[:60]}")
@@ -533,6 +557,7 @@ def monitor(script):
         elif verb == "mark":
             i = int(a["id"])
             invalid.add(i)
+            ever_marked.add(i)
             saved_tip = None   # the work at the last Save may legitimately be lost to the mark
             hi = height(i)
             if o.get("r", "ok") != "ok" or (hi is not None and i in accepted and tip["h"] - hi >= min_depth - 1):
